@@ -54,16 +54,20 @@ def check_kind(ctx: Ctx, kind, maxlen, variants=("plain", "event", "listened"), 
             op = dict(st["op"])
             v = rp.apply(op)
             probs = [v] if v else []
+            nxt = states[si + 1]["op"]["a"] if si + 1 < len(states) else "end"
             if kind == "tally" and pi % 3 == 2:
                 # sparse querying: one confidence interval per epoch (just before an initialise / at the end)
-                nxt = states[si + 1]["op"]["a"] if si + 1 < len(states) else "end"
                 probs += rp.compare(st["g"], alphas=(0.05,) if nxt in ("Initialize", "end") else ())
+            elif kind != "tally" and pi % 3 == 2:
+                # sparse querying of every getter: once per epoch (a cache that survives initialize() is refreshed by queries in between)
+                if nxt in ("Initialize", "end"):
+                    probs += rp.compare(st["g"])
             else:
                 probs += rp.compare(st["g"])
             if op["a"].startswith("Register") and op.get("res") == "ok":
                 probs += rp.published()
             for key, detail in probs:
-                ctx.violation(f"{kind}|{key}", f"{kind} ({variant}, image {aff[0]}*x+{aff[1]}) after {[dict(s['op']) for s in states[1:si + 1]][-6:]}: {detail}",
+                ctx.violation(f"{kind}|{key}", f"{kind} ({variant}, first image {aff[0]}*x+{aff[1]}, current image {rp.a}*x+{rp.b}) after {[dict(s['op']) for s in states[1:si + 1]][-6:]}: {detail}",
                               {"kind": kind, "variant": variant, "ops": [dict(s["op"]) for s in states[1:si + 1]]})
                 failed = True
             if failed:
@@ -93,9 +97,9 @@ def check_kind(ctx: Ctx, kind, maxlen, variants=("plain", "event", "listened"), 
                 for name in ("min", "max", "mean", "variance", "stdev", "skewness", "kurtosis", "excess_kurtosis"):
                     meth = name
                     got = dst.call(getattr(rp.obj, meth))
-                    want = dst.transform(name, dst.val(g[name]), aff[0], aff[1], g)
+                    want = dst.transform(name, dst.val(g[name]), rp.a, rp.b, g)       # (the image of the current epoch)
                     if isinstance(got, Exception) or not dst.close(got, want, 1.0, rp.kappa(g)):
-                        ctx.violation(f"{kind}|repeat|{name}", f"tally of pattern {pattern} repeated {k} times (image {aff[0]}*x+{aff[1]}): {meth}() = {got!r}, "
+                        ctx.violation(f"{kind}|repeat|{name}", f"tally of pattern {pattern} repeated {k} times (image {rp.a}*x+{rp.b}): {meth}() = {got!r}, "
                                       f"specification {dst.describe(want)}", {"pattern": pattern, "k": k})
                 if rp.obj.n() != k * len(pattern):
                     ctx.violation(f"{kind}|repeat|n", f"n() = {rp.obj.n()} after {k} x {len(pattern)} observations", {"pattern": pattern})
